@@ -766,3 +766,60 @@ func vpC17_O8() {
 		vpAssert("an exponentiation proof with an altered leaf is rejected", !accepted)
 	}
 }
+
+func init() {
+	vpHarnesses["vpC17_O9"] = vpC17_O9
+}
+
+// C17-O9: the structure check of an exponentiation proof looks at every part. A
+// complete proof (the library's own simulated proof, for an arbitrary challenge)
+// passes; after one alteration of any part at any position - a nil leaf, a
+// missing list entry, an oversized range response, or sub-challenges of any step
+// that do not XOR to the challenge - the check fails.
+func vpC17_O9() {
+	g := vpGroup()
+	const l = 3
+	es := newExpProofStructure("base", "exponent", "mod", "result", l)
+	challenge := vpBigBits("challenge", 256)
+	proof := es.fakeProof(g, challenge)
+	vpAssert("a complete exponentiation proof passes the structure check", es.verifyProofStructure(challenge, proof))
+	i := vpChoose("position", l)   // a position among the per-bit parts
+	j := vpChoose("position2", l-1) // a position among the intermediate results
+	d := vpBigRange("delta", big.NewInt(1), new(big.Int).Lsh(big.NewInt(1), 200))
+	switch vpChoose("part", 16) {
+	case 0:
+		proof.ExpBitEqHider.Result = nil
+	case 1:
+		proof.ExpBitProofs[i].Commit = nil
+	case 2:
+		proof.ExpBitProofs = proof.ExpBitProofs[:l-1]
+	case 3:
+		proof.BasePowProofs[i].Sresult.Result = nil
+	case 4:
+		proof.BasePowRangeProofs[i].Results[es.basePowRange[i].rangeSecret] = proof.BasePowRangeProofs[i].Results[es.basePowRange[i].rangeSecret][:rangeProofIters-1]
+	case 5:
+		proof.BasePowRelProofs[i].Hider.Result = nil
+	case 6:
+		proof.BasePowRelProofs = proof.BasePowRelProofs[:l-1]
+	case 7:
+		proof.StartProof.Hresult.Result = nil
+	case 8:
+		proof.InterResProofs[j].Commit = nil
+	case 9:
+		rs := es.interResRange[j].rangeSecret
+		proof.InterResRangeProofs[j].Results[rs][0] = vpAddBig(new(big.Int).Lsh(big.NewInt(1), l+rangeProofEpsilon+2), d)
+	case 10:
+		proof.InterResProofs = proof.InterResProofs[:l-2]
+	case 11:
+		proof.InterStepsProofs[i].Achallenge = vpAddBig(proof.InterStepsProofs[i].Achallenge, d)
+	case 12:
+		proof.InterStepsProofs[i].Bchallenge = nil
+	case 13:
+		proof.InterStepsProofs[i].Aproof.EqualityHider.Result = nil
+	case 14:
+		proof.InterStepsProofs[i].Bproof.Mul.Commit = nil
+	case 15:
+		proof.InterStepsProofs = proof.InterStepsProofs[:l-1]
+	}
+	vpAssert("an exponentiation proof with an altered part fails the structure check", !es.verifyProofStructure(challenge, proof))
+}
